@@ -462,5 +462,32 @@ pub fn run(e: &'static Engine) {
         }));
     }
     e.par(jobs);
+    // wide margins: module coordinates on 10^k / 2^k boundaries (10, 100, 128, 256, 512, 1000, 1024), small symbols,
+    // every shape, original scale (square shape: every pixel compared)
+    let total: u32 = e.tier.pick(48, 960);
+    let mut jobs: Vec<Job> = Vec::new();
+    for _ in 0..shards {
+        jobs.push(Box::new(move |jc: &mut JobCtx| {
+            let strat = (1usize..=3, 0usize..4, crate::svgcase::boundary_margin(1100), prop_oneof![1 => Just(None), 5 => (0usize..6).prop_map(Some)], prop_oneof![Just(None), (0u8..8).prop_map(Some)], any::<bool>())
+                .prop_flat_map(|(v, li, margin, shape, mask, double)| {
+                    let cell = Cell { version: v, level: Level::from_index(li), mode: Mode::Byte };
+                    case_in_cell(cell, Force { mode: false, level: true, version: true }, mask).prop_map(move |(build, _)| {
+                        let s = (size(v) + 2 * margin) as u32;
+                        Case {
+                            build,
+                            cfg: SvgCfg { margin: Some(margin), layers: shape.map(|s| vec![(s, None)]).unwrap_or_default(), ..SvgCfg::default() },
+                            fit: if double && s <= 700 { Fit::Width(2 * s) } else { Fit::Original },
+                            fit_order: 0,
+                            pre_fits: Vec::new(),
+                        }
+                    })
+                });
+            jc.run_prop(4 << 20, &strat, (total / shards).max(1), to_json, |c, o| {
+                o.label("part:wide_margins");
+                check(c, o)
+            });
+        }));
+    }
+    e.par(jobs);
     e.set_exhaustive(false, "6 shapes x the listed versions x margins {0,1,4} are enumerated; colours, fits and payloads are sampled");
 }
